@@ -10,7 +10,8 @@ PID = "C20"
 ALLOWED_DENSITY_WRITERS = {("iOpt/evolvent/evolvent.py", "Evolvent.__init__"), ("iOpt/solver_parametrs.py", "SolverParameters.__init__")}
 
 
-METHOD_FUNCS = ["Method.FirstIteration", "Method.CalculateIterationPoint", "Method.CalculateFunctionals", "OptimizationTask.Calculate"]
+METHOD_FUNCS = ["Method.FirstIteration", "Method.CalculateIterationPoint", "Method.CalculateFunctionals", "OptimizationTask.Calculate",
+                "Process.DoGlobalIteration", "Process.problemCalculate"]
 _POINT = re.compile(r"imgv\(|vecval\(|inbox\(|floatVariables")
 
 
